@@ -26,7 +26,8 @@ func runNilLoadSweep(id string, c *an.Ctx) {
 		}
 		var loads []*ssa.Call
 		an.Instrs(fn, func(in ssa.Instruction) {
-			if call, ok := in.(*ssa.Call); ok && strings.HasSuffix(an.StaticFullName(&call.Call), "atomic.Pointer[T]).Load") {
+			// Load, and Swap (which hands back the previous pointer: nil the first time)
+			if call, ok := in.(*ssa.Call); ok && (strings.HasSuffix(an.StaticFullName(&call.Call), "atomic.Pointer[T]).Load") || strings.HasSuffix(an.StaticFullName(&call.Call), "atomic.Pointer[T]).Swap")) {
 				loads = append(loads, call)
 			}
 		})
